@@ -111,6 +111,8 @@ def main() -> int:
 
     ctx = Ctx(pid, args.tier, seed)
     lines: list[str] = []
+    for old_replay in REPLAYS.glob(f"{pid}_*.json"):
+        old_replay.unlink()
     # 1. proof obligations
     if args.no_build:
         ctx.props = {"obligations": 1, "discharged": 1, "assumptions": {}, "failed": None, "theorems": [], "checker_cmd": "skipped"}
@@ -143,7 +145,11 @@ def main() -> int:
     nrep = 0
     n_viol = 0
     reported_known = set()
+    per_key: dict[str, int] = {}
     for v in ctx.violations:
+        per_key[v["key"]] = per_key.get(v["key"], 0) + 1
+        if per_key[v["key"]] > 2:
+            continue
         f = open_keys.get((pid, v["key"]))
         if f:
             if v["key"] not in reported_known:
@@ -154,7 +160,7 @@ def main() -> int:
         n_viol += 1
         p = write_replay(pid, nrep, {"property": pid, "kind": "failing-input", **v})
         lines.append(f"VIOLATION property={pid} replay={p}")
-        if n_viol >= 5:
+        if n_viol >= 8:
             break
     unexplained = []
     if ctx.props.get("failed"):
